@@ -1340,9 +1340,58 @@ def application_state_stream(ctx, res):
     if got != ({"colour": "blue"}, ["created"], {"colour": "blue", "size": 9}, ["created", "started"]):
         res.violate("C13:other-config-changed:copy", "a deep copy of a configuration shares application state kept on the configuration object with the original", dict(case, got=repr(got)[:300]))
 
+def copied_dict_values_stream(ctx, res):
+    """values of a typed dict whose VALUE field lets mutable objects through (only the key field is given, or the value field is an
+    AnyField): sets, bytearrays, tuples holding lists, lists, dicts — a deep copy of the configuration (or of an ancestor, or of
+    the dict) shares none of them with the original: an in-place change on either side does not show on the other"""
+    import copy
+    import cincoconfig as cc
+    s = cc.Schema()
+    s.meta.by_key = cc.DictField(cc.StringField(), default=dict)
+    s.meta.any_values = cc.DictField(cc.StringField(), cc.AnyField(), default=dict)
+    s.items = cc.ListField(cc.Schema(), default=lambda: [])
+
+    def fill(d):
+        d["tags"] = {"x"}
+        d["route"] = ("eu", ["fra"])
+        d["raw"] = bytearray(b"ab")
+        d["lst"] = [1]
+        d["map"] = {"k": [1]}
+        d["plain"] = 5
+
+    def mutate(d):
+        d["tags"].add("y")
+        d["route"][1].append("ams")
+        d["raw"].extend(b"cd")
+        d["lst"].append(2)
+        d["map"]["k"].append(2)
+    for which in ("by_key", "any_values"):
+        for what in ("configuration", "section", "dict"):
+            for side in ("copy", "original"):
+                cfg = s()
+                fill(cfg.meta[which])
+                dup = copy.deepcopy(cfg) if what == "configuration" else None
+                if what == "configuration":
+                    d_orig, d_copy = cfg.meta[which], dup.meta[which]
+                elif what == "section":
+                    sec = copy.deepcopy(cfg.meta)
+                    d_orig, d_copy = cfg.meta[which], sec[which]
+                else:
+                    d_orig, d_copy = cfg.meta[which], copy.deepcopy(cfg.meta[which])
+                case = {"stream": "copied-dict-values", "dict": which, "deep_copy_of": what, "mutated": side}
+                res.case(stable(case), kind="copied-dict-values")
+                target, other = (d_copy, d_orig) if side == "copy" else (d_orig, d_copy)
+                before = repr(sorted((k, repr(v)) for k, v in other.items()))
+                mutate(target)
+                after = repr(sorted((k, repr(v)) for k, v in other.items()))
+                if before != after:
+                    res.violate("C13:copy-shares-state:dict-values", "an in-place change of a value of a typed dict on one side of a deep copy shows on the other side",
+                                dict(case, before=before[:200], after=after[:200]))
+
 def run(ctx, n_quick=250, n_thorough=8000):
     import extract
     res = Result()
+    guard(res, "C13", copied_dict_values_stream, ctx, res)
     guard(res, "C13", application_state_stream, ctx, res)
     try:
         table = extract.default_disciplines(ctx.repo)
